@@ -28,6 +28,8 @@ CONFIGS = {
     # two levels, W8 only: the smallest structures on which the signing control flow can be exercised with lists of 1 and 2 levels
     "L2w8": {"env": {"HBS_LMS_MAX_ALLOWED_HSS_LEVELS": "2", "HBS_LMS_TREE_HEIGHTS": "25, 25",
                      "HBS_LMS_WINTERNITZ_PARAMETERS": "8, 8"}, "features": ["hbs_lms_verif"]},
+    "w8big": {"env": {"HBS_LMS_WINTERNITZ_PARAMETERS": "8, 8, 8, 8, 8, 8, 8, 8", "RUSTFLAGS": "--cfg kani_biglog"}, "features": ["hbs_lms_verif"]},
+    "defaultbig": {"env": {"RUSTFLAGS": "--cfg kani_biglog"}, "features": ["hbs_lms_verif"]},
     "fastverify": {"env": {"HBS_LMS_MAX_HASH_OPTIMIZATIONS": "4", "HBS_LMS_THREADS": "1"},
                    "features": ["hbs_lms_verif", "fast_verify"]},
     "L1": {"env": {"HBS_LMS_MAX_ALLOWED_HSS_LEVELS": "1", "HBS_LMS_TREE_HEIGHTS": "25",
@@ -58,7 +60,9 @@ class Harness:
         self.timeout = int(meta.get("timeout", "900"))
         self.funcs = [f for f in meta.get("funcs", "").split(";") if f]
         self.note = meta.get("note", "")
-        self.contract = meta.get("contract", "")   # free text: which clause / contract this harness discharges
+        self.contract = meta.get("contract", "")
+        # optional extra cargo-kani flags for this harness (e.g. --no-memory-safety-checks), space separated
+        self.kani_args = meta.get("kani_args", "")   # free text: which clause / contract this harness discharges
 
     @property
     def qualified(self):
@@ -343,6 +347,8 @@ def counterexample(scratch, cfg_name, h, timeout=None):
             "--harness", h.qualified]
     if cfg["features"]:
         base += ["--features", ",".join(cfg["features"])]
+    if h.kani_args:
+        base += h.kani_args.split()
     out = {"playback_test": None, "native_replay": "not attempted", "inputs": None}
     try:
         p = subprocess.run(base + ["--concrete-playback=inplace"], cwd=scratch, env=env, capture_output=True,
